@@ -284,7 +284,24 @@ def CBATTR(ctx):
     return a
 
 
+def callback_strong(ctx, clause):
+    """The README callback is kept alive by the MetaData object: what __init__ stores is the parameter itself (or a
+    no-op default), never a weak reference — `Array(path).metadata['k'] = v` must still refresh the README although the
+    owning Array is already unreachable."""
+    c = ctx.repo.cls('MetaData')
+    init = c.methods['__init__']
+    a = CBATTR(ctx)
+    weak = [v for f_, v, st in c.attr_exprs.get(a, []) if f_ is init and
+            any(isinstance(x, ast.Call) and (dotted(x.func) or '').split('.')[0] in ('weakref', 'WeakMethod', 'ref', 'proxy')
+                for x in ast.walk(v))]
+    ctx.decide(not weak, 'R-FLOW', clause, init, weak[0] if weak else None, 'callback-strong-reference',
+               f'MetaData.__init__ keeps a strong reference to the file creation/deletion callback (self.{a})',
+               detail=f'the callback is stored as `{norm(weak[0])[:60]}`: once the owning array object is garbage collected '
+                      f'the README is no longer refreshed when metadata.json is created or removed' if weak else '')
+
+
 def d4_metadata(ctx, a_regen):
+    callback_strong(ctx, 'D4')
     nt = ctx.repo.func('array.numtypedescriptiontxt')
     tests = [n for n in own_nodes(nt.node) if isinstance(n, ast.If) and 'metadata' in norm(n.test)]
     ok = False
